@@ -146,7 +146,10 @@ type Decls struct {
 	recPending  []string
 }
 
-func newDecls() *Decls { return &Decls{seen: map[string]bool{}, counter: map[string]int{}} }
+func newDecls() *Decls {
+	// Ref and ref_nil are part of the prelude
+	return &Decls{seen: map[string]bool{"sort:Ref": true, "ref_nil": true}, counter: map[string]int{}}
+}
 
 func sanitize(s string) string {
 	var b strings.Builder
